@@ -9,7 +9,9 @@ RULE = ("flat polygons on the quarter-pixel grid (1..3 subpaths, open/closed, bo
         "ends; the crate's answer is compared with the f32 model (all cases) and, on grid cases where f32 is exact, with the "
         "extracted declarative statement (winding number of the implicitly closed path or on a segment); plus agreement with "
         "fill: points at the centre of pixels whose 3x3 neighbourhood is fully painted / untouched; non-trivial = query "
-        "level with a vertex or on an edge line")
+        "level with a vertex or on an edge line; curved and off-grid cases are judged by the same statement evaluated in "
+        "exact rational arithmetic on the path Path::flatten returns (undetermined when the point is within 1e-5 relative "
+        "of an edge line); the fill agreement covers curved paths with every op order")
 
 
 def grid_ops(rng):
@@ -97,8 +99,82 @@ def to_z_case(aug):
 SPEC = {}
 
 
+def segments_of(ops):
+    """closed edges of a MoveTo/LineTo/Close path as filling sees them (implicit close, Close returns to the start)"""
+    from fractions import Fraction as Fr
+    segs, cur, first = [], None, None
+    for o in ops:
+        if o[0] == "M":
+            if cur is not None and first is not None:
+                segs.append((cur, first))
+            cur = first = (Fr(o[1]), Fr(o[2]))
+        elif o[0] == "L":
+            p = (Fr(o[1]), Fr(o[2]))
+            if cur is None:
+                first = p
+            else:
+                segs.append((cur, p))
+            cur = p
+        else:
+            if cur is not None and first is not None:
+                segs.append((cur, first))
+            cur = first
+    if cur is not None and first is not None:
+        segs.append((cur, first))
+    return segs
+
+
+def is_f32(fr):
+    from fractions import Fraction as Fr
+    try:
+        v = bits_f32(FB(float(fr)))
+    except OverflowError:
+        return False
+    return v == v and abs(v) != float("inf") and Fr(v) == fr
+
+
+def exact_statement(aug):
+    """The statement evaluated in exact rational arithmetic on the path Path::flatten returns (FLAT, from the crate):
+    winding number of the implicitly closed polygon (or on one of its segments).  None when the point is so close to an
+    edge line that the sign of the f32 cross product is not determined by the exact one."""
+    from fractions import Fraction as Fr
+    t = aug.split()
+    if "FLAT" not in t:
+        return None
+    x, y = bits_f32(int(t[3])), bits_f32(int(t[4]))
+    if x != x or y != y or abs(x) == float("inf") or abs(y) == float("inf"):
+        return None
+    w, ops, _ = _path.parse_path(t, t.index("FLAT") + 1)
+    if any(o[0] not in "MLZ" for o in ops) or any(v != v or abs(v) == float("inf") for o in ops for v in o[1:]):
+        return None
+    x, y = Fr(x), Fr(y)
+    wn, on = 0, False
+    for a, b in segments_of(ops):
+        dx, dy = b[0] - a[0], b[1] - a[1]
+        t1, t2 = dx * (y - a[1]), dy * (x - a[0])
+        cr = t1 - t2
+        spans = (a[1] <= y < b[1]) or (b[1] <= y < a[1])
+        inbox = min(a[0], b[0]) <= x <= max(a[0], b[0]) and min(a[1], b[1]) <= y <= max(a[1], b[1])
+        if (spans or inbox) and cr != 0 and abs(cr) <= (abs(t1) + abs(t2)) / 100000:
+            return None
+        # exactly collinear in rational arithmetic: the crate sees it only if none of its f32 operations rounds
+        if (spans or inbox) and cr == 0 and t1 != 0:
+            if not all(is_f32(v) for v in (dx, dy, y - a[1], x - a[0], t1, t2)):
+                return None
+        if cr == 0 and inbox:
+            on = True
+        elif a[1] <= y < b[1] and cr > 0:
+            wn += 1
+        elif b[1] <= y < a[1] and cr < 0:
+            wn -= 1
+    ins = (wn != 0) if w == 0 else (wn % 2 != 0)
+    return "true" if (ins or on) else "false"
+
+
 def oracle(aug, impl):
     sp = SPEC.get(aug.split()[1])
+    if sp is None:
+        sp = exact_statement(aug)
     if sp is None:
         return "skip"
     got = impl.split()[2]
@@ -153,12 +229,22 @@ def on_some_segment(q):
 def fill_agreement(ctx):
     """contains_point vs what fill paints, on the implementation"""
     rng = ctx.rng
-    n = 120 if ctx.tier == "quick" else 1500
+    n = 240 if ctx.tier == "quick" else 3000
     W = H = 14
     scenes, paths = [], []
     for i in range(n):
-        ops = scene.grid_polygon(rng, W, H) if rng.random() < 0.6 else scene.curvy_path(rng, W, H)
-        ops = [o for o in ops if not o.startswith("C ")] or ["M 0 0"]
+        c = rng.random()
+        if c < 0.4:
+            ops = scene.grid_polygon(rng, W, H)
+        elif c < 0.75:
+            ops = scene.curvy_path(rng, W, H)
+        else:   # every op order: a curve as the first op, directly after Close, after a second Close, repeated MoveTo
+            P = lambda r: (r.randrange(-8, 4 * W + 8) / 4.0, r.randrange(-8, 4 * H + 8) / 4.0)
+            ops = pc.mixed_ops(rng, pt=P)
+            if c > 0.88:    # a path that begins with a curve (no MoveTo: the curve starts at its first control point), then lines
+                first = ("Q %s %s" % (scene.fpt(*P(rng)), scene.fpt(*P(rng)))) if rng.random() < 0.5 else \
+                        ("C %s %s %s K 0" % (scene.fpt(*P(rng)), scene.fpt(*P(rng)), scene.fpt(*P(rng))))
+                ops = [first] + ["L " + scene.fpt(*P(rng)) for _ in range(rng.randrange(1, 4))] + (["Z"] if rng.random() < 0.5 else [])
         wd = rng.randrange(2)
         ptoks = scene.path_tokens(ops, wd)
         paths.append(ptoks)
@@ -175,7 +261,7 @@ def fill_agreement(ctx):
             for x in range(1, W - 1):
                 nb = [a[(y + dy) * W + x + dx] for dy in (-1, 0, 1) for dx in (-1, 0, 1)]
                 if all(v == 255 for v in nb) or all(v == 0 for v in nb):
-                    if rng.random() < 0.08:
+                    if rng.random() < 0.12:
                         queries.append("pcontains %d %d %d %d %s" % (len(queries), FB(0.05), FB(x + 0.5), FB(y + 0.5), paths[i]))
                         expect.append("true" if nb[0] == 255 else "false")
     ctx.cov["fill_agreement_queries"] = len(queries)
